@@ -8,7 +8,7 @@ from sa.astx import NotConst, call_attr, call_name, const_eval, dotted, lincmp, 
 from sa.selftest import Mutant, Silent
 from sa.source import AnalysisError, class_assigns
 from sa.props._lib_j import (all_paths, asserted_eq, asserted_in, bind_args, catching_handler, clone, edge_asserts,
-    handler_names, names_loaded, body_always_entered, dep, run_sections, node_calls, normal_exits, params, resolve, rsrc, taint)
+    handler_names, names_loaded, body_always_entered, dep, normalise, run_sections, node_calls, normal_exits, params, resolve, rsrc, taint)
 
 PROPERTY = "C48"
 CRED = "cred/credentials.py"
@@ -33,6 +33,8 @@ EXPLANATION = (
     "Also decided: no anchor on the decode->guards path (nor the clock, nonce and opaque generators) carries a decorator, second definition or rebinding that could answer a call without executing the body (memoisation of a verdict that depends on the clock); the pure _digest helpers may be cached. "
 )
 ASSUMPTIONS = [
+    "the rules read a normalised view of the anchored modules (sa/props/_lib_j.Normaliser): private helpers expanded at their call sites, module constants and single-assignment pure temporaries substituted, loops over constant tuples unrolled; evaluation order inside one statement is not modelled",
+   
     "host / method arguments of decode come from the server side (not client-controlled)",
     "split/strip/join/findall/get/hexlify/md5 do not raise on bytes input",
     "base64.b64decode raises only binascii.Error (a ValueError) on bytes input; int() only ValueError; nativeString only UnicodeError",
@@ -238,6 +240,32 @@ def _escape_rules(ctx, rel, qual, q, seeds, count):
                 ok = False
         ctx.check(ok, "escape/index-in-range", ctx.construct(q, n),
                   f"{src(n)} is evaluated without a dominating test that {base.id} has at least {need} parts: a short value raises IndexError")
+    # (3b) tuple unpacking of split results:  a, b = parts  needs len(parts) == 2 exactly
+    for n in walk_local(f):
+        if not (isinstance(n, ast.Assign) and len(n.targets) == 1 and isinstance(n.targets[0], (ast.Tuple, ast.List)) and isinstance(n.value, ast.Name)
+                and n.value.id in tainted and all(isinstance(e, ast.Name) for e in n.targets[0].elts)):
+            continue
+        base_r = resolve(n.value, f)
+        if not _m_split(base_r):
+            continue
+        base_t = src(base_r)
+        count["index"] += 1
+        arity = len(n.targets[0].elts)
+        ok = True
+        for cn in [x.id for x in g.nodes if x.ast is n and g.reachable(x.id)]:
+            exact = False
+            for t, lab in edge_asserts(g, cn):
+                eq = asserted_eq(resolve(t, f), lab)
+                if eq:
+                    for a, b in (eq, eq[::-1]):
+                        if isinstance(a, ast.Call) and call_name(a) == "len" and a.args and src(a.args[0]) == base_t:
+                            try:
+                                exact = exact or int(const_eval(b)) == arity
+                            except (NotConst, TypeError, ValueError):
+                                pass
+            ok = ok and exact
+        ctx.check(ok, "escape/index-in-range", ctx.construct(q, f"{arity}-way unpacking of a split result"),
+                  f"{src(n)} is executed without a dominating test that {n.value.id} has exactly {arity} parts: another count raises ValueError")
     return f, g, tainted
 
 
@@ -414,25 +442,19 @@ def _s_agreement(ctx, S):
     if ver_digest_tmpl is not None:
         ctx.check(ver_digest_tmpl == gen["digest_template"] and gen["digest_hits"] >= 1, "agreement/digest-expression", qa + " | keyed digest",
                   f"generator computes {gen['digest_template']} but verifier compares {ver_digest_tmpl}")
-    # same normalisation of the client address in both
-    def ip_norm(f, name):
-        out = []
-        for n in walk_local(f):
-            if isinstance(n, ast.Assign) and any(isinstance(t, ast.Name) and t.id == name for t in n.targets):
-                guard = []
-                p = getattr(n, "_parent", None)
-                c = n
-                while p is not None and p is not f:
-                    if isinstance(p, ast.If):
-                        guard.append(("T" if any(c is s for s in p.body) else "F") + ":" + src(p.test).replace(name, "IP"))
-                    c, p = p, getattr(p, "_parent", None)
-                out.append((tuple(guard), src(n.value).replace(name, "IP")))
-        return sorted(out)
-    ng = ip_norm(gen["func"], params(gen["func"])[2])
-    nv = ip_norm(fv, P_IP)
-    ctx.check(ng == nv, "agreement/client-address-normalisation", qa + " | clientip normalisation",
-              f"the client address is normalised differently when the opaque is generated ({ng}) and when it is verified ({nv})")
-
+    # same normalisation of the client address in both: the statements that (re)bind it are interpreted over a small domain and the OUTPUTS compared
+    domain = [None, "", b"", "10.0.0.1", b"10.0.0.1"]
+    try:
+        ng = [_run_tracked(gen["func"], params(gen["func"])[2], v) for v in domain]
+        nv = [_run_tracked(fv, P_IP, v) for v in domain]
+    except NotConst as e:
+        raise AnalysisError(f"client-address normalisation not evaluable: {e}")
+    diff = [(v, a, b) for v, a, b in zip(domain, ng, nv) if a != b or type(a) is not type(b)]
+    ctx.check(not diff, "agreement/client-address-normalisation", qa + " | clientip normalisation",
+              f"the client address is normalised differently when the opaque is generated and when it is verified: "
+              f"{'; '.join(f'{v!r} -> {a!r} vs {b!r}' for v, a, b in diff[:3])} - a genuine response from such a client is refused")
+    ctx.check(all(isinstance(x, bytes) for x in ng), "agreement/client-address-normalisation", gen["q"] + " | clientip is bytes",
+              f"the normalised client address is not always bytes ({ng}): joining the key fields raises TypeError")
 
 
 def _s_decode(ctx, S):
@@ -717,6 +739,13 @@ def _ev(node, env):
         fn = dotted(node.func) or ""
         if fn.endswith("._getTime") or fn in ("time.time", "time"):
             return env["clock"]
+        if fn == "isinstance" and len(node.args) == 2:
+            kinds = {"str": str, "bytes": bytes, "int": int, "bytearray": bytearray}
+            k = node.args[1]
+            ks = tuple(kinds[src(x)] for x in (k.elts if isinstance(k, ast.Tuple) else [k]) if src(x) in kinds)
+            if not ks:
+                raise NotConst("isinstance kind")
+            return isinstance(_ev(node.args[0], env), ks)
         args = [_ev(a, env) for a in node.args]
         table = {"int": int, "round": round, "float": float, "abs": abs, "max": max, "min": min, "math.floor": math.floor, "floor": math.floor,
                  "math.ceil": math.ceil, "ceil": math.ceil, "math.trunc": math.trunc, "trunc": math.trunc, "divmod": divmod, "str": str, "bytes": bytes}
@@ -747,6 +776,33 @@ def _ev(node, env):
             left = right
         return True
     raise NotConst(type(node).__name__)
+
+
+def _run_tracked(func, name, value):
+    """Interpret the statements of ``func`` that (re)bind ``name`` - assignments and the if-statements that contain them - starting from
+    ``name = value``; everything else is skipped.  Returns the final value of ``name`` before its first use in another binding."""
+    env = {name: value, "str": str, "bytes": bytes, "None": None}
+    tracked = {name}
+
+    def assigns_tracked(st):
+        return any(isinstance(x, ast.Assign) and any(isinstance(t, ast.Name) and t.id in tracked for t in x.targets) for x in ast.walk(st))
+
+    def run(stmts):
+        for st in stmts:
+            if isinstance(st, ast.Assign) and len(st.targets) == 1 and isinstance(st.targets[0], ast.Name):
+                t = st.targets[0].id
+                if t in tracked or ({x.id for x in ast.walk(st.value) if isinstance(x, ast.Name)} & tracked):
+                    try:
+                        env[t] = _ev(st.value, env)
+                        tracked.add(t)
+                    except (NotConst, KeyError):
+                        if t == name:
+                            raise NotConst(src(st))
+                        tracked.discard(t)
+            elif isinstance(st, ast.If) and assigns_tracked(st):
+                run(st.body if _ev(st.test, env) else st.orelse)
+    run(func.body)
+    return env[name]
 
 
 def _s_timestamp(ctx, S):
@@ -806,7 +862,7 @@ def _s_floors(ctx, S):
     count = _count(S)
     ctx.floor("escape/raises-only-LoginFailed", count["raise"], 6, "raise statements")
     ctx.floor("escape/converted", count["raiser"], 3, "raising operations on client data")
-    ctx.floor("escape/index-in-range", count["index"], 3, "constant subscripts of split results")
+    ctx.floor("escape/index-in-range", count["index"], 2, "constant subscripts of split results")
 
 
 def _s_memo(ctx, S):
@@ -821,6 +877,8 @@ def _s_memo(ctx, S):
 
 
 def check(ctx):
+    normalise(ctx, {CRED: ["_verifyOpaque", "_generateOpaque", "_generateNonce", "_getTime", "_parseparts"], DIGEST: [], WEB: []},
+              scopes={CRED: ["DigestCredentialFactory", "DigestedCredentials"]})
     run_sections(ctx, [("generator", _s_generator), ("verifyOpaque", _s_verify), ("agreement", _s_agreement), ("decode", _s_decode),
                        ("challenge", _s_challenge), ("response", _s_response), ("timestamp", _s_timestamp), ("rfc2617", _s_rfc2617), ("memoisation", _s_memo),
                        ("floors", _s_floors)])
@@ -894,4 +952,20 @@ SILENT = [
            more=[(_V, "import base64\n", "import base64\nimport math\n")]),
     Silent("issue-time-floor-division", _V, "        now = b\"%d\" % (int(self._getTime()),)", "        now = b\"%d\" % (int(self._getTime() // 1),)"),
     Silent("update-concatenated", DIGEST, "    m.update(pszMethod)\n    m.update(b\":\")\n    m.update(pszDigestUri)\n", "    m.update(pszMethod + b\":\")\n    m.update(pszDigestUri)\n"),
+    Silent("opaque-parts-unpacked-and-checks-table-driven", _V,
+           "        if keyParts[0] != nonce:\n            raise error.LoginFailed(\n                \"Invalid response, incompatible opaque/nonce values\"\n            )\n\n        if keyParts[1] != clientip:\n            raise error.LoginFailed(\n                \"Invalid response, incompatible opaque/client values\"\n            )\n\n        try:\n            when = int(keyParts[2])",
+           "        boundNonce, boundAddress, stamp = keyParts\n        for bound, given, label in ((boundNonce, nonce, \"nonce\"), (boundAddress, clientip, \"client\")):\n            if bound != given:\n                raise error.LoginFailed(\"Invalid response, incompatible opaque/%s values\" % (label,))\n\n        try:\n            when = int(stamp)"),
+    Silent("signature-and-address-in-private-helpers", _V,
+           "        key = b\",\".join((nonce, clientip, now))\n        digest = hexlify(md5(key + self.privateKey).digest())\n",
+           "        key = b\",\".join((nonce, clientip, now))\n        digest = self._seal(key)\n",
+           more=[(_V, "        # Verify the digest\n        digest = hexlify(md5(key + self.privateKey).digest())\n        if digest != opaqueParts[0]:", "        if self._seal(key) != opaqueParts[0]:"),
+                 (_V, "    def _verifyOpaque(self, opaque, nonce, clientip):", "    def _seal(self, key):\n        keyed = md5(key + self.privateKey)\n        return hexlify(keyed.digest())\n\n    def _verifyOpaque(self, opaque, nonce, clientip):")]),
+    Silent("lifetime-test-through-named-age", _V, "        if (\n            int(self._getTime()) - when\n            > DigestCredentialFactory.CHALLENGE_LIFETIME_SECS\n        ):",
+           "        age = int(self._getTime()) - when\n        if DigestCredentialFactory.CHALLENGE_LIFETIME_SECS < age:"),
+    Silent("response-check-shared-with-closure", _V,
+           "        expected = calcResponse(\n            calcHA1(algo, self.username, self.realm, password, nonce, cnonce),\n            calcHA2(algo, self.method, uri, qop, None),\n            algo,\n            nonce,\n            nc,\n            cnonce,\n            qop,\n        )\n\n        return expected == response\n\n    def checkHash",
+           "        def ha1():\n            return calcHA1(algo, self.username, self.realm, password, nonce, cnonce)\n\n        return self._agrees(ha1(), algo, uri, qop, nonce, nc, cnonce, response)\n\n"
+           "    def _agrees(self, ha1, algo, uri, qop, nonce, nc, cnonce, response):\n        ha2 = calcHA2(algo, self.method, uri, qop, None)\n        wanted = calcResponse(ha1, ha2, algo, nonce, nc, cnonce, qop)\n        return wanted == response\n\n    def checkHash"),
+    Silent("digest-updates-through-feed-helper", DIGEST, "    m = algorithms[algo]()\n    m.update(pszMethod)\n    m.update(b\":\")\n    m.update(pszDigestUri)\n", "    m = algorithms[algo]()\n    _absorb(m, pszMethod, b\":\", pszDigestUri)\n",
+           more=[(DIGEST, "def calcHA2(algo, pszMethod, pszDigestUri, pszQop, pszHEntity):", "def _absorb(h, *pieces):\n    for piece in pieces:\n        h.update(piece)\n\n\ndef calcHA2(algo, pszMethod, pszDigestUri, pszQop, pszHEntity):")]),
 ]
